@@ -39,6 +39,7 @@ type Config struct {
 	MaxSamples  int
 	SampleEvery int
 	reg         *VarRegistry
+	NoSummaries bool // disable pure-callee summarisation
 	AllEvents   bool // keep one event per (kind, label, free choices) instead of per (kind, label)
 }
 
@@ -56,6 +57,7 @@ type RunStats struct {
 	Panics        int
 	PathsEndOK    int
 	MaxPC         int
+	Summaries     int
 }
 
 type Event struct {
@@ -674,6 +676,7 @@ func Explore(cfg *Config) *Result {
 			s.CheckQueries += i.stats.CheckQueries
 			s.AssumeCut += i.stats.AssumeCut
 			s.Panics += i.stats.Panics
+			s.Summaries += i.stats.Summaries
 			if i.stats.MaxPC > s.MaxPC {
 				s.MaxPC = i.stats.MaxPC
 			}
